@@ -12,14 +12,14 @@ use kolibrie::parser::parse_sparql_query;
 use kolibrie::sparql_database::SparqlDatabase;
 use kolibrie::streamertail_optimizer::{build_logical_plan_from_group, DatabaseStats, DatasetView, ExecutionEngine, PhysicalOperator, Streamertail};
 use serde_json::{json, Value};
-use shared::dataset_index::{GraphTerm, QuadPattern};
+use shared::dataset_index::{GraphId, GraphTerm, Quad, QuadPattern};
 use std::collections::{BTreeMap, HashMap};
 use std::sync::Arc;
 
 pub const DEF: PropDef = PropDef {
     id: "C02",
     level: "exploration",
-    rule: "cases = (dataset, query, configuration): queries are BGPs of 2-4 patterns (chain, subject star of >=3 patterns so the StarJoin rewrite fires, cycle, cartesian product, repeated variable, variable predicate), GRAPH-scoped BGPs (fixed and variable graph), UNIONs of VALUES blocks and of twin scans differing only in graph/constant (memo key), BGP+FILTER, BGP+sub-select; for each query EVERY permutation of every triples block (<=24); configurations: statistics in {fresh gather_stats_fast, empty DatabaseStats::new(), all-zero, all-huge, per-predicate cardinalities inverted, stale (real cached_stats path: query, mutate through add_triple/add_quad, query again)}; for the plan find_best_plan returns under each statistics object EVERY assignment of {BindJoin, HashJoin, NestedLoopJoin} to its join nodes (3^j), every TableScan<->IndexScan flip, StarJoin replaced by left-deep joins; thread-pool sizes {1,2,3,4,8,16} on a 210-triple dataset and on a 1099-subject dataset (1099 left rows: not divisible by any pool size and > 64 rows per worker) so that execute_bind_join splits unevenly for every pool size. Oracle: every variant returns the same solution multiset (decoded) and that multiset equals the SPARQL-algebra reference. Non-trivial = case with a non-empty answer and >=2 join nodes or a non-default configuration; distinct by (query, dataset, configuration).",
+    rule: "cases = (dataset, query, configuration): queries are BGPs of 2-4 patterns (chain, subject star of >=3 patterns so the StarJoin rewrite fires, cycle, cartesian product, repeated variable, variable predicate), GRAPH-scoped BGPs (fixed and variable graph), UNIONs of VALUES blocks and of twin scans differing only in graph/constant (memo key), BGP+FILTER, BGP+sub-select; for each query EVERY permutation of every triples block (<=24); configurations: statistics in {fresh gather_stats_fast, empty DatabaseStats::new(), all-zero, all-huge, per-predicate cardinalities inverted, stale (real cached_stats path: query, mutate through add_triple/add_quad, query again)}; for the plan find_best_plan returns under each statistics object EVERY assignment of {BindJoin, HashJoin, NestedLoopJoin} to its join nodes (3^j), every TableScan<->IndexScan flip, StarJoin replaced by left-deep joins; thread-pool sizes {1,2,3,4,8,16} on a 210-triple dataset and on a 1099-subject dataset (1099 left rows: not divisible by any pool size and > 64 rows per worker) so that execute_bind_join splits unevenly for every pool size. Round 3: shapes whose join has a NON-SCAN right child (BIND plan joined on its target with a VALUES block / a scan, UNION, VALUES, and - differentially only - a FILTER on an outer variable), where BindJoin (left rows fed into the right plan) can differ from HashJoin / NestedLoopJoin (right plan evaluated from the unit solution and merged); Filter(StarJoin), two stars (identity + reverse permutation), and a star / a chain as the RIGHT child of a join (shapes printed with the ;/, abbreviations so that the block reaches lowering as one Bgp); statistics AllMax (every cardinality u64::MAX); the plan-variant enumeration repeated under three replacement DatasetViews (FROM g1 g2 / FROM NAMED g1 g2 / FROM g2 FROM NAMED g1) for six shapes with fresh, empty and AllMax statistics; four stale-cache flavours through the real cached_stats (grown with pre-created graphs, grown with graphs that appear after caching, shrunk with delete_triple_parts/delete_quad, first query on the empty database - the mutated database is read back and must equal the dataset of the case); every join assignment executed INSIDE pools of 1/3/16 workers on datasets with exactly 63/64/65/127/128/129 left rows (the 64-row bind-join chunk threshold). Oracle: every variant returns the same solution multiset (decoded) and that multiset equals the SPARQL-algebra reference (shape filter_right_outer_var: compared with the plan chosen under fresh statistics only). Non-trivial = case with a non-empty answer and >=2 join nodes or a non-default configuration; distinct by (query, dataset, configuration).",
     assumptions: &[
         "interleavings INSIDE a rayon pool are not enumerable (the pool cannot be intercepted); pool sizes are enumerated and the free-running runs are labelled as such. Structural argument: chunk results are concatenated positionally and the only state shared between chunk tasks is the dictionary behind its RwLock, whose id assignment cannot influence decoded rows",
         "plan variants are produced by rewriting the public PhysicalOperator tree; all three join algorithms are candidates of every logical join in find_best_plan_recursive, so every assignment is a plan the optimizer could select",
@@ -93,7 +93,69 @@ pub fn base_groups() -> Vec<(&'static str, Group)> {
             }))]),
         ),
         ("nested_groups", Group(vec![Elem::Triples(vec![spo.clone()]), Elem::Nested(Group(vec![Elem::Triples(vec![opz.clone(), sqv.clone()])]))])),
+        // --- round 3: right children of a join that are not scans. Only here can BindJoin (which feeds its
+        // left rows INTO the right plan) differ from HashJoin / NestedLoopJoin (which evaluate the right
+        // plan on its own and merge).
+        (
+            "bind_right_values",
+            Group(vec![
+                Elem::Values(vec!["n".into()], vec![vec![Some(T::lit("1k"))], vec![Some(T::lit("2k"))], vec![Some(T::lit("3k"))]]),
+                Elem::Nested(Group(vec![Elem::Triples(vec![sqv.clone()]), Elem::Bind(vec![v("v"), T::lit("k")], "n".into())])),
+            ]),
+        ),
+        (
+            "bind_right_scan",
+            Group(vec![Elem::Triples(vec![tp(v("s"), i(Q), v("n"))]), Elem::Nested(Group(vec![Elem::Triples(vec![sqv.clone()]), Elem::Bind(vec![v("v"), T::lit("")], "n".into())]))]),
+        ),
+        ("union_right", Group(vec![Elem::Triples(vec![spo.clone()]), Elem::Union(vec![Group(vec![Elem::Triples(vec![sqv.clone()])]), Group(vec![Elem::Triples(vec![opz.clone()])])])])),
+        (
+            "values_right",
+            Group(vec![
+                Elem::Triples(vec![spo.clone(), sqv.clone()]),
+                Elem::Values(vec!["s".into(), "v".into()], vec![vec![Some(i(A)), Some(T::lit("1"))], vec![None, Some(T::lit("2"))], vec![Some(i(B)), None]]),
+            ]),
+        ),
+        // differential only (see `shape_is_absolute`): the FILTER of the inner group mentions a variable of
+        // the OUTER group; the statement only demands that the join algorithms agree with each other
+        (
+            "filter_right_outer_var",
+            Group(vec![Elem::Triples(vec![sqv.clone()]), Elem::Nested(Group(vec![Elem::Triples(vec![spo.clone()]), Elem::Filter(Expr::Cmp(v("v"), Cmp::Gt, T::Num("1".into())))]))]),
+        ),
+        // --- round 3: star shapes (Filter(StarJoin), two stars, a star as the right child of a join)
+        ("star3_filter", Group(vec![Elem::Triples(vec![spo.clone(), sqv.clone(), sqw.clone()]), Elem::Filter(Expr::Cmp(v("v"), Cmp::Ge, T::Num("2".into())))])),
+        ("two_stars", Group(vec![Elem::Triples(vec![spo.clone(), sqv.clone(), sqw.clone(), opz.clone(), tp(v("o"), i(Q), v("y")), tp(v("o"), i(Q), v("u"))])])),
+        // printed with the `;` / `,` abbreviations: the whole block is ONE Bgp for the parser, so the star is
+        // lowered as a join subtree and becomes the right child of the join with the GRAPH / UNION element
+        ("graph_then_star_abbrev", Group(vec![Elem::Graph(i(G1), Group(vec![Elem::Triples(vec![spo.clone()])])), Elem::Triples(vec![spo.clone(), sqv.clone(), sqw.clone()])])),
+        ("union_then_star_abbrev", Group(vec![Elem::Union(vec![Group(vec![Elem::Triples(vec![spc.clone()])]), Group(vec![Elem::Triples(vec![tp(v("s"), i(P), i(B))])])]), Elem::Triples(vec![spo.clone(), sqv.clone(), sqw.clone()])])),
+        ("graph_then_chain_abbrev", Group(vec![Elem::Graph(v("g"), Group(vec![Elem::Triples(vec![spo.clone()])])), Elem::Triples(vec![tp(v("o"), i(P), v("z")), tp(v("o"), i(Q), v("y"))])])),
     ]
+}
+
+/// Is the shape judged against the SPARQL-algebra reference (and differentially), or only differentially?
+pub fn shape_is_absolute(name: &str) -> bool {
+    name != "filter_right_outer_var"
+}
+
+pub fn shape_layout(name: &str) -> Layout {
+    if name.ends_with("_abbrev") {
+        Layout::Abbrev
+    } else {
+        Layout::Canonical
+    }
+}
+
+/// the permutations enumerated for a shape: all of them, except for the 6-pattern two-star shape
+/// (identity and reverse only: 720 permutations would not fit the quick tier)
+pub fn shape_permutations(name: &str, base: &Group) -> Vec<Group> {
+    if name == "two_stars" {
+        let mut rev = base.clone();
+        if let Elem::Triples(ts) = &mut rev.0[0] {
+            ts.reverse();
+        }
+        return vec![base.clone(), rev];
+    }
+    permuted_groups(base)
 }
 
 fn permutations<Tt: Clone>(items: &[Tt]) -> Vec<Vec<Tt>> {
@@ -217,9 +279,11 @@ pub enum StatsKind {
     AllZero,
     AllHuge,
     Inverted,
+    /// every cardinality = u64::MAX (sums over graphs / union branches overflow unless saturating)
+    AllMax,
 }
 
-pub const STATS: [StatsKind; 5] = [StatsKind::Fresh, StatsKind::Empty, StatsKind::AllZero, StatsKind::AllHuge, StatsKind::Inverted];
+pub const STATS: [StatsKind; 6] = [StatsKind::Fresh, StatsKind::Empty, StatsKind::AllZero, StatsKind::AllHuge, StatsKind::Inverted, StatsKind::AllMax];
 
 fn make_stats(kind: StatsKind, db: &SparqlDatabase) -> DatabaseStats {
     let mut st = DatabaseStats::gather_stats_fast(db);
@@ -227,8 +291,12 @@ fn make_stats(kind: StatsKind, db: &SparqlDatabase) -> DatabaseStats {
     match kind {
         StatsKind::Fresh => {}
         StatsKind::Empty => st = DatabaseStats::new(),
-        StatsKind::AllZero | StatsKind::AllHuge => {
-            let val = if kind == StatsKind::AllZero { 0 } else { big };
+        StatsKind::AllZero | StatsKind::AllHuge | StatsKind::AllMax => {
+            let val = match kind {
+                StatsKind::AllZero => 0,
+                StatsKind::AllHuge => big,
+                _ => u64::MAX,
+            };
             st.total_triples = val;
             st.named_graph_count = val;
             st.distinct_subjects = val;
@@ -370,11 +438,18 @@ struct CaseCtx<'a> {
     mask: u32,
     eg: bool,
     text: &'a str,
+    /// structural families of the query (`q:<family>`, shared with C01): added to every failure's tags
+    fam: Vec<String>,
+}
+
+fn fam_tags(g: &Group) -> Vec<String> {
+    super::c01::family_tags(&all_vars_select(g)).into_iter().map(|f| format!("q:{}", f)).collect()
 }
 
 fn fail(out: &mut ShardOut, c: &CaseCtx, config: &str, symptom: &str, detail: String, extra_tags: Vec<String>) {
     let mut tags = vec![format!("shape={}", c.name), format!("config={}", config.split(':').next().unwrap_or(config))];
     tags.extend(extra_tags);
+    tags.extend(c.fam.iter().cloned());
     out.fail(json!({"shape": c.name, "perm": c.perm, "dataset_mask": c.mask, "empty_graph": c.eg, "query": c.text, "config": config}), symptom, detail, tags);
 }
 
@@ -382,10 +457,355 @@ fn diff(exp: &[Sol], got: &[Sol]) -> String {
     format!("expected {} solutions, got {}\n  expected: {:?}\n  got     : {:?}", exp.len(), got.len(), exp.iter().take(8).collect::<Vec<_>>(), got.iter().take(8).collect::<Vec<_>>())
 }
 
+/// replacement query datasets (FROM / FROM NAMED) handed to the optimizer and the engine as a
+/// `DatasetView`, exactly as `build_dataset_view` builds them for a query with dataset clauses
+fn view_kinds() -> Vec<(&'static str, Vec<&'static str>, Vec<&'static str>)> {
+    vec![("from_g1_g2", vec![G1, G2], vec![]), ("from_named_g1_g2", vec![], vec![G1, G2]), ("from_g2_named_g1", vec![G2], vec![G1])]
+}
+
+/// shapes that are additionally run under the replacement dataset views
+const VIEW_SHAPES: [&str; 6] = ["chain2", "star3", "graph_var_bgp", "default_join_graph", "union_twin_scans_graph", "bind_right_scan"];
+
+fn reference_solutions_in(g: &Group, ds: &Dataset, from: &[&str], named: &[&str]) -> Result<Vec<Sol>, String> {
+    let from: Vec<String> = from.iter().map(|x| x.to_string()).collect();
+    let named: Vec<String> = named.iter().map(|x| x.to_string()).collect();
+    let view = View::of(ds, &from, &named);
+    let r: Vec<Mu> = sparql_eval::eval_group(g, &view, None)?;
+    Ok(canon_solutions(r))
+}
+
+fn make_view(db: &SparqlDatabase, spec: Option<(&[&str], &[&str])>) -> DatasetView {
+    match spec {
+        None => DatasetView::from_database(db),
+        Some((from, named)) => {
+            let gid = |name: &&str| GraphId::Named(db.dictionary.write().unwrap().encode(name));
+            DatasetView::new(from.iter().map(gid).collect::<Vec<_>>(), named.iter().map(gid).collect::<Vec<_>>())
+        }
+    }
+}
+
+fn has_filter_over_star(p: &PhysicalOperator) -> bool {
+    use PhysicalOperator as PO;
+    match p {
+        PO::Filter { input, .. } => has_star(input) || has_filter_over_star(input),
+        PO::BindJoin { left, right } | PO::HashJoin { left, right } | PO::NestedLoopJoin { left, right } => has_filter_over_star(left) || has_filter_over_star(right),
+        PO::Union { branches } => branches.iter().any(has_filter_over_star),
+        PO::Graph { input, .. } | PO::Projection { input, .. } | PO::Bind { input, .. } | PO::MLPredict { input, .. } => has_filter_over_star(input),
+        PO::Subquery { inner, .. } => has_filter_over_star(inner),
+        _ => false,
+    }
+}
+
+/// kinds of right children of join nodes (vacuity: the non-scan right children are where the three
+/// join algorithms can differ)
+fn right_child_kinds(p: &PhysicalOperator, out: &mut Vec<&'static str>) {
+    use PhysicalOperator as PO;
+    match p {
+        PO::BindJoin { left, right } | PO::HashJoin { left, right } | PO::NestedLoopJoin { left, right } => {
+            out.push(match right.as_ref() {
+                PO::TableScan { .. } | PO::IndexScan { .. } => "scan",
+                PO::Bind { .. } => "bind",
+                PO::Filter { .. } => "filter",
+                PO::Union { .. } => "union",
+                PO::Values { .. } => "values",
+                PO::StarJoin { .. } => "star",
+                PO::Graph { .. } => "graph",
+                PO::Subquery { .. } => "subquery",
+                PO::BindJoin { .. } | PO::HashJoin { .. } | PO::NestedLoopJoin { .. } => "join",
+                _ => "other",
+            });
+            right_child_kinds(left, out);
+            right_child_kinds(right, out);
+        }
+        PO::Union { branches } => branches.iter().for_each(|b| right_child_kinds(b, out)),
+        PO::Graph { input, .. } | PO::Filter { input, .. } | PO::Projection { input, .. } | PO::Bind { input, .. } | PO::MLPredict { input, .. } => right_child_kinds(input, out),
+        PO::Subquery { inner, .. } => right_child_kinds(inner, out),
+        _ => {}
+    }
+}
+
+/// the plan `find_best_plan` returns for the query under one statistics object and one dataset view
+fn plan_for(c: &CaseCtx, db: &mut SparqlDatabase, view: &DatasetView, sk: StatsKind) -> Result<PhysicalOperator, (String, String)> {
+    let (_, q) = parse_sparql_query(c.text).map_err(|_| ("query_rejected".to_string(), "parse_sparql_query rejected the generated text".to_string()))?;
+    let prefixes = HashMap::new();
+    let logical = build_logical_plan_from_group(&q.pattern, &prefixes, db).map_err(|e| ("query_rejected".to_string(), e))?;
+    let stats = Arc::new(make_stats(sk, db));
+    guarded(|| {
+        let mut opt = Streamertail::with_cached_stats_and_dataset(stats.clone(), view.clone());
+        opt.find_best_plan(&logical)
+    })
+    .map_err(|p| ("panic".to_string(), format!("find_best_plan: {}", p)))
+}
+
+/// (b) + (c): explicit plans under each statistics object, and every plan variant, under one dataset
+/// view. `prefix` is prepended to the configuration labels ("" for the database's own dataset).
+#[allow(clippy::too_many_arguments)]
+fn plans_under_view(out: &mut ShardOut, c: &CaseCtx, ds: &Dataset, exp: &[Sol], view_spec: Option<(&[&str], &[&str])>, prefix: &str, stats_list: &[StatsKind], only: Option<&str>, plan_variants: bool, flips: bool) {
+    let want = |label: &str| only.map_or(true, |o| o == label);
+    let nontrivial_base = !exp.is_empty();
+    let mut seen_plans: Vec<u64> = Vec::new();
+    for &sk in stats_list {
+        let label = format!("{}stats:{:?}", prefix, sk);
+        let mut db = build_db(ds);
+        let view = make_view(&db, view_spec);
+        let plan = match plan_for(c, &mut db, &view, sk) {
+            Ok(p) => p,
+            Err((symptom, detail)) => {
+                if want(&label) {
+                    fail(out, c, &label, &symptom, detail, vec![format!("stats={:?}", sk)]);
+                }
+                continue;
+            }
+        };
+        if want(&label) {
+            out.evaluations += 1;
+            match exec_plan(&plan, &mut db, &view) {
+                Err(p) => fail(out, c, &label, "panic", p, vec![format!("stats={:?}", sk)]),
+                Ok(got) => {
+                    if got != exp {
+                        fail(out, c, &label, "wrong_rows", diff(exp, &got), vec![format!("stats={:?}", sk)]);
+                    }
+                    if nontrivial_base && sk != StatsKind::Fresh {
+                        out.nontrivial(&(c.text, c.mask, c.eg, &label));
+                    }
+                    if sk == StatsKind::AllMax {
+                        out.count("plans_under_all_max_statistics_executed", 1);
+                    }
+                    if view_spec.is_some() {
+                        out.count("executions_under_replacement_dataset_view", 1);
+                        if !got.is_empty() {
+                            out.count("executions_under_replacement_dataset_view_nonempty", 1);
+                        }
+                    }
+                }
+            }
+        }
+        let ph = hash64(&format!("{:?}", plan));
+        if seen_plans.contains(&ph) || !plan_variants {
+            continue;
+        }
+        seen_plans.push(ph);
+        out.count("distinct_plans", 1);
+        if has_filter_over_star(&plan) {
+            out.count("plans_with_filter_over_starjoin", 1);
+        }
+        let mut kinds = Vec::new();
+        right_child_kinds(&plan, &mut kinds);
+        for k in &kinds {
+            if *k != "scan" {
+                out.count(&format!("join_right_child_{}", k), 1);
+            }
+        }
+        // (c) plan variants: star expansion, join assignments, scan flips
+        let mut bases: Vec<(String, PhysicalOperator)> = vec![("asis".into(), plan.clone())];
+        if has_star(&plan) {
+            out.count("plans_with_starjoin", 1);
+            let (mut jn, mut sn) = (0, 0);
+            bases.push(("star_expanded".into(), rewrite(&plan, &None, &mut jn, &[], &mut sn, true)));
+        }
+        for (bname, base) in &bases {
+            let j = count_joins(base);
+            out.max("max_join_nodes", j as u64);
+            let total = 3usize.pow(j.min(5) as u32);
+            for code in 0..total {
+                let mut a = Vec::with_capacity(j);
+                let mut x = code;
+                for _ in 0..j {
+                    a.push((x % 3) as u8);
+                    x /= 3;
+                }
+                let vlabel = format!("{}plan:{:?}:{}:joins={:?}", prefix, sk, bname, a);
+                if !want(&vlabel) {
+                    continue;
+                }
+                let (mut jn, mut sn) = (0, 0);
+                let variant = rewrite(base, &Some(a.clone()), &mut jn, &[], &mut sn, false);
+                out.evaluations += 1;
+                out.count("join_assignments_executed", 1);
+                let mut tags = join_tags(&a);
+                let mut vk = Vec::new();
+                right_child_kinds(&variant, &mut vk);
+                for k in vk.iter().filter(|k| **k != "scan") {
+                    tags.push(format!("right_child={}", k));
+                }
+                tags.sort();
+                tags.dedup();
+                match exec_plan(&variant, &mut db, &view) {
+                    Err(p) => fail(out, c, &vlabel, "panic", p, tags),
+                    Ok(got) => {
+                        if got != exp {
+                            fail(out, c, &vlabel, "wrong_rows", diff(exp, &got), tags);
+                        }
+                        if nontrivial_base && j >= 2 {
+                            out.nontrivial(&(c.text, c.mask, c.eg, &vlabel));
+                        }
+                        out.outcome(&(got.len(), &a));
+                    }
+                }
+            }
+            if !flips {
+                continue;
+            }
+            let s = count_scans(base);
+            let mut flip_sets: Vec<Vec<usize>> = (0..s).map(|k| vec![k]).collect();
+            flip_sets.push((0..s).collect());
+            for f in flip_sets {
+                let vlabel = format!("{}plan:{:?}:{}:flip={:?}", prefix, sk, bname, f);
+                if !want(&vlabel) {
+                    continue;
+                }
+                let (mut jn, mut sn) = (0, 0);
+                let variant = rewrite(base, &None, &mut jn, &f, &mut sn, false);
+                out.evaluations += 1;
+                match exec_plan(&variant, &mut db, &view) {
+                    Err(p) => fail(out, c, &vlabel, "panic", p, vec!["scan_flip".into()]),
+                    Ok(got) => {
+                        if got != exp {
+                            fail(out, c, &vlabel, "wrong_rows", diff(exp, &got), vec!["scan_flip".into()]);
+                        }
+                    }
+                }
+            }
+        }
+    }
+}
+
+/// (d) stale statistics through the REAL cache (`cached_stats`, which only `execute_update_operation`
+/// invalidates): the database is queried in one state (statistics cached), mutated through the store
+/// API to the dataset of the case, and queried again. Flavours: `stale_cached_stats` = half of the quads,
+/// every graph pre-created, then grown; `stale_new_graph` = half of the quads and NO pre-created graphs
+/// (named graphs appear after the statistics were cached, so `graph_cardinalities` misses them);
+/// `stale_after_delete` = the dataset plus every other quad of the universe, then shrunk with
+/// `delete_triple_parts` / `delete_quad`; `stale_from_empty` = first query on the empty database.
+fn stale_case(out: &mut ShardOut, c: &CaseCtx, g: &Group, ds: &Dataset, flavour: &str) {
+    let quads: Vec<_> = ds.quads().into_iter().collect();
+    let add = |db: &mut SparqlDatabase, s: &str, p: &str, o: &str, gname: &str| {
+        if gname.is_empty() {
+            db.add_triple_parts(s, p, o);
+        } else {
+            db.add_quad_parts(s, p, o, gname);
+        }
+    };
+    let create_graphs = |db: &mut SparqlDatabase| {
+        for gname in ds.named.keys() {
+            let gid = db.dictionary.write().unwrap().encode(gname);
+            db.dataset_index.create_graph(GraphId::Named(gid));
+        }
+    };
+    let mut db;
+    let mut extras: Vec<(String, String, String, String)> = Vec::new();
+    match flavour {
+        "stale_cached_stats" | "stale_new_graph" => {
+            if quads.len() < 2 {
+                return;
+            }
+            let mut half = Dataset::default();
+            for (k, (s, p, o, gname)) in quads.iter().enumerate() {
+                if k % 2 == 0 {
+                    if gname.is_empty() {
+                        half.default.insert((s.clone(), p.clone(), o.clone()));
+                    } else {
+                        half.named.entry(gname.clone()).or_default().insert((s.clone(), p.clone(), o.clone()));
+                    }
+                }
+            }
+            if flavour == "stale_cached_stats" {
+                for gname in ds.named.keys() {
+                    half.named.entry(gname.clone()).or_default();
+                }
+            }
+            db = build_db(&half);
+        }
+        "stale_after_delete" => {
+            let mut big = ds.clone();
+            for (s, p, o, gname) in universe() {
+                let t = (s.to_string(), p.to_string(), o.to_string());
+                if gname.is_empty() {
+                    if big.default.insert(t.clone()) {
+                        extras.push((t.0, t.1, t.2, String::new()));
+                    }
+                } else if let Some(gr) = big.named.get_mut(gname) {
+                    // only graphs of the case's dataset: deleting must not leave an extra (empty) graph behind
+                    if gr.insert(t.clone()) {
+                        extras.push((t.0, t.1, t.2, gname.to_string()));
+                    }
+                }
+            }
+            if extras.is_empty() {
+                return;
+            }
+            db = build_db(&big);
+        }
+        _ => {
+            if quads.is_empty() {
+                return;
+            }
+            db = SparqlDatabase::new();
+        }
+    }
+    let first = guarded(|| execute_sparql_query(c.text, &mut db));
+    if !matches!(first, Ok(Ok(_))) || db.cached_stats.is_none() {
+        return;
+    }
+    match flavour {
+        "stale_cached_stats" | "stale_new_graph" => {
+            for (k, (s, p, o, gname)) in quads.iter().enumerate() {
+                if k % 2 == 1 {
+                    add(&mut db, s, p, o, gname);
+                }
+            }
+            create_graphs(&mut db);
+        }
+        "stale_after_delete" => {
+            for (s, p, o, gname) in &extras {
+                if gname.is_empty() {
+                    db.delete_triple_parts(s, p, o);
+                } else {
+                    let enc = |x: &str| db.dictionary.write().unwrap().encode(x);
+                    let quad = Quad { subject: enc(s), predicate: enc(p), object: enc(o), graph: GraphId::Named(enc(gname)) };
+                    db.delete_quad(&quad);
+                }
+            }
+        }
+        _ => {
+            create_graphs(&mut db);
+            for (s, p, o, gname) in &quads {
+                add(&mut db, s, p, o, gname);
+            }
+        }
+    }
+    if db.cached_stats.is_none() {
+        out.count("stale_cache_was_invalidated_by_store_api", 1);
+    }
+    if extract(&db) != *ds {
+        out.machinery_errors.push(format!("{}: the mutated database does not hold the dataset of the case (mask {})", flavour, c.mask));
+        return;
+    }
+    out.evaluations += 1;
+    out.count(&format!("{}_executed", flavour), 1);
+    match guarded(|| execute_sparql_query(c.text, &mut db)) {
+        Err(p) => fail(out, c, flavour, "panic", p, vec![]),
+        Ok(Err(e)) => fail(out, c, flavour, "query_rejected", e, vec![]),
+        Ok(Ok(rows)) => {
+            let sel = all_vars_select(g);
+            if let Ok(ans) = sparql_eval::eval_select(&sel, ds) {
+                if let Err(e) = sparql_eval::check_rows(&ans, &rows) {
+                    fail(out, c, flavour, "wrong_rows", e, vec![]);
+                } else if !ans.rows.is_empty() {
+                    out.nontrivial(&(c.text, c.mask, c.eg, flavour));
+                }
+            }
+        }
+    }
+}
+
+const STALE_FLAVOURS: [&str; 4] = ["stale_cached_stats", "stale_new_graph", "stale_after_delete", "stale_from_empty"];
+
 /// All configurations for one (dataset, permuted query). `only` restricts to one configuration
 /// label (replay).
 fn check_case(out: &mut ShardOut, c: &CaseCtx, g: &Group, ds: &Dataset, only: Option<&str>, plan_variants: bool) {
-    let exp = match reference_solutions(g, ds) {
+    let absolute = shape_is_absolute(c.name);
+    let reference = match reference_solutions(g, ds) {
         Ok(e) => e,
         Err(e) => {
             out.machinery_errors.push(format!("reference rejected {}: {}", c.text, e));
@@ -393,9 +813,8 @@ fn check_case(out: &mut ShardOut, c: &CaseCtx, g: &Group, ds: &Dataset, only: Op
         }
     };
     let want = |label: &str| only.map_or(true, |o| o == label);
-    let nontrivial_base = !exp.is_empty();
     // (a) end to end, fresh database
-    if want("end_to_end") {
+    if absolute && want("end_to_end") {
         out.evaluations += 1;
         let mut db = build_db(ds);
         match guarded(|| execute_sparql_query(c.text, &mut db)) {
@@ -415,164 +834,45 @@ fn check_case(out: &mut ShardOut, c: &CaseCtx, g: &Group, ds: &Dataset, only: Op
             }
         }
     }
-    // (b) explicit plans under each statistics object
-    let parsed_ok = parse_sparql_query(c.text).is_ok();
-    if !parsed_ok {
+    if parse_sparql_query(c.text).is_err() {
         fail(out, c, "parse", "query_rejected", "parse_sparql_query rejected the generated text".into(), vec![]);
         return;
     }
-    let mut seen_plans: Vec<u64> = Vec::new();
-    for sk in STATS {
-        let label = format!("stats:{:?}", sk);
+    // differential-only shapes: the yardstick is what the plan chosen under fresh statistics returns
+    let exp: Vec<Sol> = if absolute {
+        reference
+    } else {
         let mut db = build_db(ds);
-        let (_, q) = parse_sparql_query(c.text).unwrap();
-        let prefixes = HashMap::new();
-        let logical = match build_logical_plan_from_group(&q.pattern, &prefixes, &mut db) {
-            Ok(l) => l,
-            Err(e) => {
-                fail(out, c, &label, "query_rejected", e, vec![]);
-                continue;
-            }
-        };
         let view = DatasetView::from_database(&db);
-        let stats = Arc::new(make_stats(sk, &db));
-        let plan = match guarded(|| {
-            let mut opt = Streamertail::with_cached_stats_and_dataset(stats.clone(), view.clone());
-            opt.find_best_plan(&logical)
-        }) {
-            Ok(p) => p,
-            Err(p) => {
-                if want(&label) {
-                    fail(out, c, &label, "panic", format!("find_best_plan: {}", p), vec![format!("stats={:?}", sk)]);
-                }
+        let base = plan_for(c, &mut db, &view, StatsKind::Fresh).and_then(|p| exec_plan(&p, &mut db, &view).map_err(|e| ("panic".to_string(), e)));
+        match base {
+            Ok(b) => b,
+            Err((symptom, detail)) => {
+                fail(out, c, "stats:Fresh", &symptom, detail, vec![]);
+                return;
+            }
+        }
+    };
+    // (b) + (c) on the database's own dataset
+    plans_under_view(out, c, ds, &exp, None, "", &STATS, only, plan_variants, true);
+    // (e) the same under replacement dataset views (FROM / FROM NAMED as a DatasetView)
+    if absolute && VIEW_SHAPES.contains(&c.name) && (plan_variants || only.is_some()) {
+        for (vname, from, named) in view_kinds() {
+            let prefix = format!("view={}|", vname);
+            if only.map_or(false, |o| !o.starts_with(&prefix)) {
                 continue;
             }
-        };
-        if want(&label) {
-            out.evaluations += 1;
-            match exec_plan(&plan, &mut db, &view) {
-                Err(p) => fail(out, c, &label, "panic", p, vec![format!("stats={:?}", sk)]),
-                Ok(got) => {
-                    if got != exp {
-                        fail(out, c, &label, "wrong_rows", diff(&exp, &got), vec![format!("stats={:?}", sk)]);
-                    }
-                    if nontrivial_base && sk != StatsKind::Fresh {
-                        out.nontrivial(&(c.text, c.mask, c.eg, &label));
-                    }
-                }
-            }
-        }
-        let ph = hash64(&format!("{:?}", plan));
-        if seen_plans.contains(&ph) || !plan_variants {
-            continue;
-        }
-        seen_plans.push(ph);
-        out.count("distinct_plans", 1);
-        // (c) plan variants: star expansion, join assignments, scan flips
-        let mut bases: Vec<(String, PhysicalOperator)> = vec![("asis".into(), plan.clone())];
-        if has_star(&plan) {
-            out.count("plans_with_starjoin", 1);
-            let (mut jn, mut sn) = (0, 0);
-            bases.push(("star_expanded".into(), rewrite(&plan, &None, &mut jn, &[], &mut sn, true)));
-        }
-        for (bname, base) in &bases {
-            let j = count_joins(base);
-            out.max("max_join_nodes", j as u64);
-            let total = 3usize.pow(j.min(5) as u32);
-            for code in 0..total {
-                let mut a = Vec::with_capacity(j);
-                let mut x = code;
-                for _ in 0..j {
-                    a.push((x % 3) as u8);
-                    x /= 3;
-                }
-                let vlabel = format!("plan:{:?}:{}:joins={:?}", sk, bname, a);
-                if !want(&vlabel) {
-                    continue;
-                }
-                let (mut jn, mut sn) = (0, 0);
-                let variant = rewrite(base, &Some(a.clone()), &mut jn, &[], &mut sn, false);
-                out.evaluations += 1;
-                out.count("join_assignments_executed", 1);
-                match exec_plan(&variant, &mut db, &view) {
-                    Err(p) => fail(out, c, &vlabel, "panic", p, join_tags(&a)),
-                    Ok(got) => {
-                        if got != exp {
-                            fail(out, c, &vlabel, "wrong_rows", diff(&exp, &got), join_tags(&a));
-                        }
-                        if nontrivial_base && j >= 2 {
-                            out.nontrivial(&(c.text, c.mask, c.eg, &vlabel));
-                        }
-                        out.outcome(&(got.len(), &a));
-                    }
-                }
-            }
-            let s = count_scans(base);
-            let mut flips: Vec<Vec<usize>> = (0..s).map(|k| vec![k]).collect();
-            flips.push((0..s).collect());
-            for f in flips {
-                let vlabel = format!("plan:{:?}:{}:flip={:?}", sk, bname, f);
-                if !want(&vlabel) {
-                    continue;
-                }
-                let (mut jn, mut sn) = (0, 0);
-                let variant = rewrite(base, &None, &mut jn, &f, &mut sn, false);
-                out.evaluations += 1;
-                match exec_plan(&variant, &mut db, &view) {
-                    Err(p) => fail(out, c, &vlabel, "panic", p, vec!["scan_flip".into()]),
-                    Ok(got) => {
-                        if got != exp {
-                            fail(out, c, &vlabel, "wrong_rows", diff(&exp, &got), vec!["scan_flip".into()]);
-                        }
-                    }
-                }
+            match reference_solutions_in(g, ds, &from, &named) {
+                Ok(expv) => plans_under_view(out, c, ds, &expv, Some((&from, &named)), &prefix, &[StatsKind::Fresh, StatsKind::Empty, StatsKind::AllMax], only, true, false),
+                Err(e) => out.machinery_errors.push(format!("reference rejected {} under view {}: {}", c.text, vname, e)),
             }
         }
     }
-    // (d) stale statistics through the real cache: query on a prefix of the data, mutate, query again
-    if want("stale_cached_stats") {
-        let quads: Vec<_> = ds.quads().into_iter().collect();
-        if quads.len() >= 2 {
-            let mut half = Dataset::default();
-            for (k, (s, p, o, gname)) in quads.iter().enumerate() {
-                if k % 2 == 0 {
-                    if gname.is_empty() {
-                        half.default.insert((s.clone(), p.clone(), o.clone()));
-                    } else {
-                        half.named.entry(gname.clone()).or_default().insert((s.clone(), p.clone(), o.clone()));
-                    }
-                }
-            }
-            for gname in ds.named.keys() {
-                half.named.entry(gname.clone()).or_default();
-            }
-            let mut db = build_db(&half);
-            let first = guarded(|| execute_sparql_query(c.text, &mut db));
-            if matches!(first, Ok(Ok(_))) && db.cached_stats.is_some() {
-                for (k, (s, p, o, gname)) in quads.iter().enumerate() {
-                    if k % 2 == 1 {
-                        if gname.is_empty() {
-                            db.add_triple_parts(s, p, o);
-                        } else {
-                            db.add_quad_parts(s, p, o, gname);
-                        }
-                    }
-                }
-                out.evaluations += 1;
-                match guarded(|| execute_sparql_query(c.text, &mut db)) {
-                    Err(p) => fail(out, c, "stale_cached_stats", "panic", p, vec![]),
-                    Ok(Err(e)) => fail(out, c, "stale_cached_stats", "query_rejected", e, vec![]),
-                    Ok(Ok(rows)) => {
-                        let sel = all_vars_select(g);
-                        if let Ok(ans) = sparql_eval::eval_select(&sel, ds) {
-                            if let Err(e) = sparql_eval::check_rows(&ans, &rows) {
-                                fail(out, c, "stale_cached_stats", "wrong_rows", e, vec![]);
-                            } else if nontrivial_base {
-                                out.nontrivial(&(c.text, c.mask, c.eg, "stale"));
-                            }
-                        }
-                    }
-                }
+    // (d) stale statistics through the real cache
+    if absolute && c.mask != u32::MAX {
+        for flavour in STALE_FLAVOURS {
+            if want(flavour) {
+                stale_case(out, c, g, ds, flavour);
             }
         }
     }
@@ -602,7 +902,7 @@ fn all_vars_select(g: &Group) -> Select {
 
 fn pool_sizes_case(out: &mut ShardOut, name: &str, perm: usize, g: &Group, ds: &Dataset, only: Option<usize>) {
     let sel = all_vars_select(g);
-    let text = print_select(&sel, Layout::Canonical);
+    let text = print_select(&sel, shape_layout(name.trim_start_matches("xwide:")));
     let ans = match sparql_eval::eval_select(&sel, ds) {
         Ok(a) => a,
         Err(e) => {
@@ -624,7 +924,7 @@ fn pool_sizes_case(out: &mut ShardOut, name: &str, perm: usize, g: &Group, ds: &
         };
         let mut db = build_db(ds);
         let res = pool.install(|| guarded(|| execute_sparql_query(&text, &mut db)));
-        let c = CaseCtx { name, perm, mask: u32::MAX, eg: false, text: &text };
+        let c = CaseCtx { name, perm, mask: u32::MAX, eg: false, text: &text, fam: fam_tags(g) };
         let label = format!("pool:{}", n);
         match res {
             Err(p) => fail(out, &c, &label, "panic", p, vec![format!("threads={}", n)]),
@@ -641,17 +941,113 @@ fn pool_sizes_case(out: &mut ShardOut, name: &str, perm: usize, g: &Group, ds: &
     }
 }
 
+/// a dataset with exactly `n` subjects, each with one `p` edge (a permutation of the subjects) and one
+/// or two `q` values: a scan of `?s p ?o` yields exactly `n` left rows for the join above it
+pub fn boundary_dataset(n: usize) -> Dataset {
+    let mut ds = Dataset::default();
+    for k in 0..n {
+        let s = format!("http://e/r{}", k);
+        ds.default.insert((s.clone(), P.to_string(), format!("http://e/r{}", (k * 5 + 2) % n)));
+        ds.default.insert((s.clone(), Q.to_string(), format!("{}", k % 4)));
+        if k % 3 == 0 {
+            ds.default.insert((s.clone(), Q.to_string(), format!("{}", 7 + k % 2)));
+        }
+    }
+    ds
+}
+
+pub const BOUNDARY_SIZES: [usize; 6] = [63, 64, 65, 127, 128, 129];
+pub const BOUNDARY_POOLS: [usize; 3] = [1, 3, 16];
+
+/// Every join-algorithm assignment of the plan chosen under fresh statistics, executed INSIDE thread pools
+/// of 1, 3 and 16 workers, on datasets whose left input has 63 / 64 / 65 / 127 / 128 / 129 rows (the bind
+/// join's 64-row chunk threshold and its multiples; the hash and nested-loop joins' par_iter over the left
+/// rows). `only` = "<n>:<pool>:<joins>" restricts to one configuration (replay).
+fn pool_boundary_case(out: &mut ShardOut, name: &str, base: &Group, only: Option<&str>) {
+    let sel = all_vars_select(base);
+    let text = print_select(&sel, shape_layout(name));
+    for n in BOUNDARY_SIZES {
+        let ds = boundary_dataset(n);
+        let exp = match reference_solutions(base, &ds) {
+            Ok(e) => e,
+            Err(e) => {
+                out.machinery_errors.push(e);
+                return;
+            }
+        };
+        let c = CaseCtx { name, perm: 0, mask: u32::MAX, eg: false, text: &text, fam: fam_tags(base) };
+        for pool_n in BOUNDARY_POOLS {
+            let pool = match rayon::ThreadPoolBuilder::new().num_threads(pool_n).build() {
+                Ok(p) => p,
+                Err(e) => {
+                    out.machinery_errors.push(format!("cannot build pool: {}", e));
+                    return;
+                }
+            };
+            let mut db = build_db(&ds);
+            let view = DatasetView::from_database(&db);
+            let plan = match plan_for(&c, &mut db, &view, StatsKind::Fresh) {
+                Ok(p) => p,
+                Err((symptom, detail)) => {
+                    fail(out, &c, &format!("boundary:{}:{}:plan", n, pool_n), &symptom, detail, vec![]);
+                    continue;
+                }
+            };
+            let mut bases: Vec<PhysicalOperator> = vec![plan.clone()];
+            if has_star(&plan) {
+                let (mut jn, mut sn) = (0, 0);
+                bases.push(rewrite(&plan, &None, &mut jn, &[], &mut sn, true));
+            }
+            for (bi, b) in bases.iter().enumerate() {
+                let j = count_joins(b);
+                for code in 0..3usize.pow(j.min(4) as u32) {
+                    let mut a = Vec::with_capacity(j);
+                    let mut x = code;
+                    for _ in 0..j {
+                        a.push((x % 3) as u8);
+                        x /= 3;
+                    }
+                    let rest = format!("{}:{}:{}:{:?}", n, pool_n, bi, a);
+                    if only.map_or(false, |o| o != rest) {
+                        continue;
+                    }
+                    let label = format!("boundary:{}", rest);
+                    let (mut jn, mut sn) = (0, 0);
+                    let variant = rewrite(b, &Some(a.clone()), &mut jn, &[], &mut sn, false);
+                    out.evaluations += 1;
+                    out.count("boundary_pool_join_assignments_executed", 1);
+                    let res = pool.install(|| exec_plan(&variant, &mut db, &view));
+                    let mut tags = join_tags(&a);
+                    tags.push(format!("threads={}", pool_n));
+                    tags.push(format!("left_rows={}", n));
+                    match res {
+                        Err(p) => fail(out, &c, &label, "panic", p, tags),
+                        Ok(got) => {
+                            out.max("max_rows_boundary_dataset", got.len() as u64);
+                            if got != exp {
+                                fail(out, &c, &label, "wrong_rows", diff(&exp, &got), tags);
+                            } else if !got.is_empty() {
+                                out.nontrivial(&(&text, &label));
+                            }
+                        }
+                    }
+                }
+            }
+        }
+    }
+}
+
 fn run(ctx: &Ctx) -> ShardOut {
     let mut out = ShardOut::default();
     let groups = base_groups();
     let dsl = datasets(ctx.thorough());
     let mut idx = 0u64;
     'all: for (name, base) in &groups {
-        let perms = permuted_groups(base);
+        let perms = shape_permutations(name, base);
         out.max("max_permutations_of_one_query", perms.len() as u64);
         for (pi, g) in perms.iter().enumerate() {
             let sel = all_vars_select(g);
-            let text = print_select(&sel, Layout::Canonical);
+            let text = print_select(&sel, shape_layout(name));
             for (di, (mask, eg)) in dsl.iter().enumerate() {
                 idx += 1;
                 if !ctx.mine(idx) {
@@ -662,7 +1058,7 @@ fn run(ctx: &Ctx) -> ShardOut {
                     break 'all;
                 }
                 let ds = dataset_from_mask(*mask, *eg);
-                let c = CaseCtx { name, perm: pi, mask: *mask, eg: *eg, text: &text };
+                let c = CaseCtx { name, perm: pi, mask: *mask, eg: *eg, text: &text, fam: fam_tags(g) };
                 // plan variants on every dataset in thorough, on the first 6 datasets in quick
                 let pv = ctx.thorough() || di < 6;
                 check_case(&mut out, &c, g, &ds, None, pv);
@@ -674,8 +1070,8 @@ fn run(ctx: &Ctx) -> ShardOut {
     }
     // thread-pool sizes on the wide dataset (free-running; see assumptions)
     let wide = wide_dataset();
-    for (name, base) in &groups {
-        for (pi, g) in permuted_groups(base).iter().enumerate() {
+    for (name, base) in groups.iter().filter(|(n, _)| shape_is_absolute(n)) {
+        for (pi, g) in shape_permutations(name, base).iter().enumerate() {
             if pi > 1 && !ctx.thorough() {
                 break;
             }
@@ -704,6 +1100,18 @@ fn run(ctx: &Ctx) -> ShardOut {
             pool_sizes_case(&mut out, &format!("xwide:{}", name), pi, g, &xwide, None);
         }
     }
+    // join algorithms x pool sizes x boundary left-row counts
+    for (name, base) in groups.iter().filter(|(n, _)| matches!(*n, "chain2" | "os_join" | "star3" | "union_right" | "bind_right_scan")) {
+        idx += 1;
+        if !ctx.mine(idx) {
+            continue;
+        }
+        if ctx.expired() {
+            out.capped.push("wall-clock cap hit in the boundary pool runs".into());
+            break;
+        }
+        pool_boundary_case(&mut out, name, base, None);
+    }
     out
 }
 
@@ -719,7 +1127,11 @@ fn replay(_ctx: &Ctx, case: &Value) -> ShardOut {
         out.machinery_errors.push("replay: unknown shape".into());
         return out;
     };
-    let perms = permuted_groups(base);
+    if let Some(rest) = config.strip_prefix("boundary:") {
+        pool_boundary_case(&mut out, name, base, Some(rest));
+        return out;
+    }
+    let perms = shape_permutations(name, base);
     let Some(g) = perms.get(perm) else {
         out.machinery_errors.push("replay: bad permutation".into());
         return out;
@@ -732,8 +1144,8 @@ fn replay(_ctx: &Ctx, case: &Value) -> ShardOut {
     let eg = case["empty_graph"].as_bool().unwrap_or(false);
     let ds = dataset_from_mask(mask, eg);
     let sel = all_vars_select(g);
-    let text = print_select(&sel, Layout::Canonical);
-    let c = CaseCtx { name, perm, mask, eg, text: &text };
+    let text = print_select(&sel, shape_layout(name));
+    let c = CaseCtx { name, perm, mask, eg, text: &text, fam: fam_tags(g) };
     check_case(&mut out, &c, g, &ds, Some(config), true);
     out
 }
